@@ -72,7 +72,7 @@ def plan(tier, verif_seed):
 def _sett(rng, template, scen):
     if template == "T1":
         # 0.1 and 1/3: sums such as 0.30000000000000004 need all 17 significant digits to survive a round trip
-        return {"smA": {scen: {"constants": {"constant": rng.choice([0.5, 2.0, 3.0, 7.0, 0.1, 0.3333333333333333])}}}}
+        return {"smA": {scen: {"constants": {"constant": rng.choice([0.5, 2.0, 3.0, 7.0, 0.1, 0.3333333333333333, 1.5e308])}}}}      # (1.5e308: the stock overflows to Infinity after two steps - a value like any other)
     r = rng.random()
     if r < 0.4:
         return {"smA": {scen: {"constants": {"k": rng.choice([0.5, 1.0, 2.0])}}}}
